@@ -568,6 +568,9 @@ func TestC40(t *testing.T) {
 		}
 	}
 
+	// ---- level 1 behind the real certificate verifier and real CP-PKI chains (c40x_realverifier_test.go) ----
+	c40RealVerifier(s, peers, vals, &evals, &nontriv)
+
 	// ---- secret value and intra-AS level 1: only to hosts configured for that protocol ----
 	type entry struct {
 		host  string
